@@ -173,7 +173,9 @@ def translate (t : Top) : Option Module :=
     (match Meta.translate raws with
      | .ok md =>
        if Core2.hasDup (c2.globals.map (·.name) ++ fs.map (·.name)) then none
-       else if (t.funcs.flatMap funcNames).all (fun n => (c2.typedefs.map (·.name)).contains n) then some ⟨c2.typedefs, c2.globals, fs, md⟩
+       else if (t.funcs.flatMap funcNames).all (fun n => (c2.typedefs.map (·.name)).contains n) &&
+          -- every metadata attachment of an instruction names a definition of the metadata section (asm/metadata.go irMetadataAttachment)
+          (fs.flatMap Core3.mdUses).all (fun k => (md.defs.map (·.id)).contains k) then some ⟨c2.typedefs, c2.globals, fs, md⟩
        else none
      | .error => none)
   | _, _ => none
@@ -184,6 +186,7 @@ def parse (ls : List Bytes) : Option Module := (readTop (ls.length + 1) ls).bind
 
 def crossOK (m : Module) : Bool :=
   !Core2.hasDup (m.globals.map (·.name) ++ m.funcs.map (·.name)) &&
-  (m.funcs.flatMap funcNames).all (fun n => (m.typedefs.map (·.name)).contains n)
+  (m.funcs.flatMap funcNames).all (fun n => (m.typedefs.map (·.name)).contains n) &&
+  (m.funcs.flatMap Core3.mdUses).all (fun k => (m.md.defs.map (·.id)).contains k)
 
 end Llir.Whole
